@@ -98,46 +98,46 @@ func closureLooksUp(fn *ssa.Function, mu *ssa.MapUpdate) bool {
 
 // sanitisers: consumers that may receive an order-tainted sequence, with the reason.
 var orderSanitisers = map[string]string{
-	"(*gmsl.stateResolverV2).reverseTopologicalOrdering": "canonical output: Kahn work-lists are sorted with a total comparator before every pick (rule 2)",
-	"(*gmsl.stateResolverV2).mainlineOrdering":           "canonical output: SortStableFunc with a total comparator",
-	"(*gmsl.stateResolverV2).wrapPowerLevelEventsForSort": "element-wise wrapper feeding the sorter",
-	"(*gmsl.stateResolverV2).wrapOtherEventsForSort":      "element-wise wrapper feeding the sorter",
-	"gmsl.kahnsAlgorithmUsingAuthEvents":                  "sorts before every pick (rule 2)",
-	"gmsl.kahnsAlgorithmUsingPrevEvents":                  "sorts before every pick (rule 2)",
-	"(*gmsl.stateResolverV2).applyEvents":                 "P4: keyed by (type, state_key), one event per key",
-	"(*gmsl.stateResolverV2).authAndApplyEvents":          "only reached with canonically ordered lists (checked: its arguments are outputs of the ordering routines)",
-	"gmsl.eventMapFromEvents":                             "P1: map keyed by event ID",
-	"gmsl.newPDUSet":                                      "P1: set keyed by event ID",
-	"gmsl.ResolveStateConflicts":                          "v1: blocks are sorted by (depth, sha1) and registration is deferred per type (rule 3)",
-	"gmsl.ResolveStateConflictsV2":                        "re-analysed as an entry point with tainted parameters",
-	"gmsl.ResolveStateConflictsV2New":                     "re-analysed as an entry point with tainted parameters",
-	"gmsl.splitConflictedUnconflicted":                    "re-analysed: builds identity-keyed maps; its outputs are treated as tainted",
-	"(*gmsl.stateResolver).addConflicted":                 "v1: groups by (type, state_key); block order only affects result order (rule 3)",
-	"(*gmsl.stateResolver).resolveAndAddAuthBlocks":       "v1: per-block sort + deferred registration (rule 3)",
-	"(*gmsl.stateResolver).resolveAuthBlock":              "sorts the block (depth, sha1)",
-	"(*gmsl.stateResolver).resolveNormalBlock":            "sorts the block (depth, sha1)",
-	"gmsl.sortConflictedEventsByDepthAndSHA1":             "canonicaliser: sort.Sort with (depth, sha1)",
-	"gmsl.ReverseTopologicalOrdering":                     "canonical output (rule 2)",
-	"gmsl.getCreateEvent":                                 "P3: at most one create event",
-	"gmsl.StateNeededForAuth":                             "called with a single-element list",
-	"slices.SortFunc":                                     "canonicaliser (comparator checked total)",
-	"slices.SortStableFunc":                               "canonicaliser (comparator checked total)",
-	"sort.Sort":                                           "canonicaliser",
-	"(*github.com/hashicorp/go-set/v3.HashSet).InsertSlice": "P1: set keyed by event ID",
-	"(*gmsl.stateResolverV2).calculateAuthDifferenceNew":  "per-state-set DFS into identity-keyed sets",
+	"(*gmsl.stateResolverV2).reverseTopologicalOrdering":                  "canonical output: Kahn work-lists are sorted with a total comparator before every pick (rule 2)",
+	"(*gmsl.stateResolverV2).mainlineOrdering":                            "canonical output: SortStableFunc with a total comparator",
+	"(*gmsl.stateResolverV2).wrapPowerLevelEventsForSort":                 "element-wise wrapper feeding the sorter",
+	"(*gmsl.stateResolverV2).wrapOtherEventsForSort":                      "element-wise wrapper feeding the sorter",
+	"gmsl.kahnsAlgorithmUsingAuthEvents":                                  "sorts before every pick (rule 2)",
+	"gmsl.kahnsAlgorithmUsingPrevEvents":                                  "sorts before every pick (rule 2)",
+	"(*gmsl.stateResolverV2).applyEvents":                                 "P4: keyed by (type, state_key), one event per key",
+	"(*gmsl.stateResolverV2).authAndApplyEvents":                          "only reached with canonically ordered lists (checked: its arguments are outputs of the ordering routines)",
+	"gmsl.eventMapFromEvents":                                             "P1: map keyed by event ID",
+	"gmsl.newPDUSet":                                                      "P1: set keyed by event ID",
+	"gmsl.ResolveStateConflicts":                                          "v1: blocks are sorted by (depth, sha1) and registration is deferred per type (rule 3)",
+	"gmsl.ResolveStateConflictsV2":                                        "re-analysed as an entry point with tainted parameters",
+	"gmsl.ResolveStateConflictsV2New":                                     "re-analysed as an entry point with tainted parameters",
+	"gmsl.splitConflictedUnconflicted":                                    "re-analysed: builds identity-keyed maps; its outputs are treated as tainted",
+	"(*gmsl.stateResolver).addConflicted":                                 "v1: groups by (type, state_key); block order only affects result order (rule 3)",
+	"(*gmsl.stateResolver).resolveAndAddAuthBlocks":                       "v1: per-block sort + deferred registration (rule 3)",
+	"(*gmsl.stateResolver).resolveAuthBlock":                              "sorts the block (depth, sha1)",
+	"(*gmsl.stateResolver).resolveNormalBlock":                            "sorts the block (depth, sha1)",
+	"gmsl.sortConflictedEventsByDepthAndSHA1":                             "canonicaliser: sort.Sort with (depth, sha1)",
+	"gmsl.ReverseTopologicalOrdering":                                     "canonical output (rule 2)",
+	"gmsl.getCreateEvent":                                                 "P3: at most one create event",
+	"gmsl.StateNeededForAuth":                                             "called with a single-element list",
+	"slices.SortFunc":                                                     "canonicaliser (comparator checked total)",
+	"slices.SortStableFunc":                                               "canonicaliser (comparator checked total)",
+	"sort.Sort":                                                           "canonicaliser",
+	"(*github.com/hashicorp/go-set/v3.HashSet).InsertSlice":               "P1: set keyed by event ID",
+	"(*gmsl.stateResolverV2).calculateAuthDifferenceNew":                  "per-state-set DFS into identity-keyed sets",
 	"(*gmsl.stateResolverV2).calculateFullAuthChainAndConflictedSubgraph": "DFS into identity-keyed sets",
-	"github.com/oleiade/lane/v2.NewStack":                 "DFS work stack feeding identity-keyed sets only",
-	"gmsl.VerifyAllEventSignatures":                       "element-wise",
+	"github.com/oleiade/lane/v2.NewStack":                                 "DFS work stack feeding identity-keyed sets only",
+	"gmsl.VerifyAllEventSignatures":                                       "element-wise",
 }
 
 // exempt returns / fields: state sets by contract
 var orderExemptReturns = map[string]string{
-	"gmsl.ResolveStateConflictsV2":     "returns a state SET (order not part of the contract)",
-	"gmsl.ResolveStateConflictsV2New":  "returns a state SET",
-	"gmsl.ResolveStateConflicts":       "returns a state SET",
-	"gmsl.ResolveConflicts":            "returns a state SET",
-	"gmsl.ResolveConflictsNew":         "returns a state SET",
-	"gmsl.splitConflictedUnconflicted": "outputs treated as tainted by the callers",
+	"gmsl.ResolveStateConflictsV2":                       "returns a state SET (order not part of the contract)",
+	"gmsl.ResolveStateConflictsV2New":                    "returns a state SET",
+	"gmsl.ResolveStateConflicts":                         "returns a state SET",
+	"gmsl.ResolveConflicts":                              "returns a state SET",
+	"gmsl.ResolveConflictsNew":                           "returns a state SET",
+	"gmsl.splitConflictedUnconflicted":                   "outputs treated as tainted by the callers",
 	"(*gmsl.stateResolverV2).calculateAuthDifference":    "output treated as tainted by the caller (Slice-like)",
 	"(*gmsl.stateResolverV2).calculateAuthDifferenceNew": "output treated as tainted by the caller",
 }
@@ -149,21 +149,21 @@ func checkOrderTaint(c *fw.Ctx) {
 			n == "(*gmsl.stateResolverV2).calculateAuthDifference" || n == "(*gmsl.stateResolverV2).calculateAuthDifferenceNew" || n == "gmsl.splitConflictedUnconflicted"
 	}
 	entries := map[string]map[string]bool{
-		"ResolveConflicts":                   setOf("events", "authEvents"),
-		"ResolveConflictsNew":                setOf("stateSets", "authEvents"),
-		"ResolveStateConflicts":              setOf("conflicted", "authEvents"),
-		"ResolveStateConflictsV2":            setOf("conflicted", "unconflicted", "authEvents"),
-		"ResolveStateConflictsV2New":         setOf("stateSets", "authEvents"),
-		"splitConflictedUnconflicted":        setOf("stateSets"),
-		"ReverseTopologicalOrdering":         setOf("input"),
-		"HeaderedReverseTopologicalOrdering": setOf("events"),
-		"LineariseStateResponse":             {},
-		"kahnsAlgorithmUsingAuthEvents":      setOf("events"),
-		"kahnsAlgorithmUsingPrevEvents":      setOf("events"),
-		"(*stateResolverV2).calculateAuthDifference":     {},
-		"(*stateResolverV2).calculateAuthDifferenceNew":  setOf("stateSets"),
-		"(*stateResolverV2).mainlineOrdering":            setOf("events"),
-		"(*stateResolverV2).reverseTopologicalOrdering":  setOf("events"),
+		"ResolveConflicts":                              setOf("events", "authEvents"),
+		"ResolveConflictsNew":                           setOf("stateSets", "authEvents"),
+		"ResolveStateConflicts":                         setOf("conflicted", "authEvents"),
+		"ResolveStateConflictsV2":                       setOf("conflicted", "unconflicted", "authEvents"),
+		"ResolveStateConflictsV2New":                    setOf("stateSets", "authEvents"),
+		"splitConflictedUnconflicted":                   setOf("stateSets"),
+		"ReverseTopologicalOrdering":                    setOf("input"),
+		"HeaderedReverseTopologicalOrdering":            setOf("events"),
+		"LineariseStateResponse":                        {},
+		"kahnsAlgorithmUsingAuthEvents":                 setOf("events"),
+		"kahnsAlgorithmUsingPrevEvents":                 setOf("events"),
+		"(*stateResolverV2).calculateAuthDifference":    {},
+		"(*stateResolverV2).calculateAuthDifferenceNew": setOf("stateSets"),
+		"(*stateResolverV2).mainlineOrdering":           setOf("events"),
+		"(*stateResolverV2).reverseTopologicalOrdering": setOf("events"),
 	}
 	nsinks := 0
 	nsrc := 0
